@@ -239,3 +239,61 @@ def pair_assoc(kind, a, b):
         den = math.sqrt((xm ** 2).sum() * (ym ** 2).sum())
         return abs((xm * ym).sum() / den) if den > 0 else 0.0
     return measure(kind + "_measure", a, b)
+
+
+def _rat(v):
+    import fractions
+    fr = fractions.Fraction(v)
+    return str(fr.numerator) if fr.denominator == 1 else f"{fr.numerator}/{fr.denominator}"
+
+
+def _finite_all(vs):
+    return all(isinstance(v, (int, float)) and not isinstance(v, bool) and math.isfinite(v) for v in vs)
+
+
+def lean_measure(drv, name, x, y):
+    """exact value of a ranking measure by the Lean model (`Model/Measures.lean`, the definitions the C15 theorems are about),
+    as a float; None when the model does not cover the case (infinite values, OLS R, correlation distance)"""
+    import fractions
+    F = fractions.Fraction
+    keep = [i for i, v in enumerate(x) if not _missing(v)]
+    xv, yv = [x[i] for i in keep], [y[i] for i in keep]
+    if name == "kruskal_measure":
+        if not _finite_all(xv):
+            return None
+        r = drv.call({"op": "measure.exact", "kind": "kruskal",
+                      "groups": [[_rat(a) for a, b in zip(xv, yv) if b == c] for c in dict.fromkeys(y)]})
+        return float("nan") if r["h"] is None else float(F(r["h"]))
+    if name == "kruskal_measure_rev":
+        if not _finite_all(yv):
+            return None
+        r = drv.call({"op": "measure.exact", "kind": "kruskal",
+                      "groups": [[_rat(b) for a, b in zip(xv, yv) if a == c] for c in dict.fromkeys(xv)]})
+        return float("nan") if r["h"] is None else float(F(r["h"]))
+    if name in ("tschuprowt_measure", "cramerv_measure"):
+        keep = [i for i in range(len(x)) if not _missing(x[i]) and not _missing(y[i])]
+        xx, yy = [x[i] for i in keep], [y[i] for i in keep]
+        xs, ys = sorted(set(xx), key=str), sorted(set(yy), key=str)
+        tab = [[0] * len(ys) for _ in xs]
+        for a, b in zip(xx, yy):
+            tab[xs.index(a)][ys.index(b)] += 1
+        r = drv.call({"op": "measure.exact", "kind": "chi2", "table": tab})
+        if r["chi2"] is None:
+            return float("nan")
+        chi2, n = F(r["chi2"]), len(xx)
+        if name == "cramerv_measure":
+            return math.sqrt(float(chi2 / n / (min(len(xs), len(ys)) - 1))) if min(len(xs), len(ys)) > 1 else float("nan")
+        d = math.sqrt((len(xs) - 1) * (len(ys) - 1))
+        return math.sqrt(float(chi2 / n) / d) if d > 0 else 0.0
+    return None
+
+
+def lean_pair_assoc(drv, kind, a, b):
+    """|pearson| / |spearman| by the Lean model on the pairwise finite rows; None when not covered"""
+    import fractions
+    F = fractions.Fraction
+    if kind not in ("pearson", "spearman"):
+        return lean_measure(drv, kind + "_measure", a, b)
+    keep = [i for i in range(len(a)) if isinstance(a[i], (int, float)) and isinstance(b[i], (int, float)) and math.isfinite(a[i]) and math.isfinite(b[i])]
+    r = drv.call({"op": "measure.exact", "kind": kind, "xs": [_rat(a[i]) for i in keep], "ys": [_rat(b[i]) for i in keep]})
+    return 0.0 if r["r2"] is None else math.sqrt(float(F(r["r2"])))
